@@ -518,6 +518,20 @@ func (d *depthJudge) tripCount(it *loopIter) (*linForm, int64, error) {
 		if !ok {
 			return nil, 0, fmt.Errorf("loop condition")
 		}
+		// descending: for i := len(X) - 1; i >= 0; i-- runs len(X) times
+		if as, ok := l.Init.(*ast.AssignStmt); ok && len(as.Rhs) == 1 && len(as.Lhs) == 1 && be.Op.String() == ">=" {
+			if z, ok := d.c.ConstInt(be.Y); ok && z == 0 && nosp(d.c.Src(be.X)) == nosp(d.c.Src(as.Lhs[0])) {
+				if ib, ok := unparen(as.Rhs[0]).(*ast.BinaryExpr); ok && ib.Op.String() == "-" {
+					if one, ok := d.c.ConstInt(ib.Y); ok && one == 1 {
+						if lc, ok := unparen(ib.X).(*ast.CallExpr); ok && d.c.CalleeName(lc) == "builtin.len" {
+							if p, ok := l.Post.(*ast.IncDecStmt); ok && p.Tok.String() == "--" && nosp(d.c.Src(p.X)) == nosp(d.c.Src(as.Lhs[0])) {
+								return toLin(tCall("len", d.m.in.eval(it.Exits[0].St.Clone(), lc.Args[0]))), 1, nil
+							}
+						}
+					}
+				}
+			}
+		}
 		call, ok := unparen(be.Y).(*ast.CallExpr)
 		if !ok || d.c.CalleeName(call) != "builtin.len" {
 			return nil, 0, fmt.Errorf("loop bound is not len(...)")
